@@ -12,6 +12,7 @@ def run(c):
     import random
     c02.listener_slice(c, random.Random(c.seed + 11), c.tier == "thorough", prop="C01")
     c07.late_record(c, "C01")
+    c07.stalled_consume(c, "C01")
     # nothing sent on a connection without a record of its own is relayed, whatever the accept queue holds
     c07.burst_reuse_check(c, "C01", 100 if c.tier != "thorough" else 400)
 
